@@ -1,6 +1,7 @@
 import PgBifrost.Proofs.BatcherRouting
 import PgBifrost.Props.C04
 import PgBifrost.Proofs.Kinesis
+import PgBifrost.Gen.Switches
 /-!
 # C05 — WAL order inside batches and per partition key (batcher layer)
 
@@ -180,5 +181,19 @@ example : callsInOrder [1, 2, 3, 4] [[1, 2, 3, 4], [1, 3, 4], [3, 4]] = true ∧
     callsInOrder [1, 2, 3, 4] [[1, 2, 3, 4], [1, 4, 3]] = false := by decide
 
 end kinesis
+
+/-- **the routing switch of `sendBatch` is the modelled one** (regenerated on every run): round robin takes the
+current position and advances it modulo the number of workers; partition routing takes
+`QuickHash(batch's partition key, workers)`; the worker index is assigned nowhere else and the batch is sent on
+exactly that worker's channel (`partition_routing_fixed` is about this rule; a fall-back to another worker under
+a full queue, as in seed C05-4, changes this table). -/
+theorem routing_switch_as_in_source :
+    PgBifrost.Gen.Switches.routingSwitch =
+      [("BATCH_ROUTING_ROUND_ROBIN", "channelIndex = b.roundRobinPosition ; if b.roundRobinPosition == b.workers-1 { b.roundRobinPosition = 0 } else { b.roundRobinPosition++ }"),
+       ("BATCH_ROUTING_PARTITION", "channelIndex = utils.QuickHash(batch.GetPartitionKey(), b.workers)")] ∧
+    PgBifrost.Gen.Switches.routingUse =
+      ["channelIndex := 0", "channelIndex = b.roundRobinPosition",
+       "channelIndex = utils.QuickHash(batch.GetPartitionKey(), b.workers)", "b.outputChans[channelIndex] <- batch"] := by
+  constructor <;> rfl
 
 end PgBifrost.Props.C05
